@@ -14,6 +14,7 @@ HERE = os.path.dirname(os.path.abspath(__file__))
 VERIF = os.path.dirname(HERE)
 REPO = os.environ.get("VERIF_REPO", "/repo")
 KNOWN = os.path.join(VERIF, "known_findings.json")
+REPLAYS = os.environ.get("VERIF_REPLAY_DIR", os.path.join(VERIF, "replays"))
 
 
 def load_known():
@@ -29,7 +30,7 @@ def build_replayer(work, sanitize=False, arch="avx2"):
     if os.path.exists(exe):
         return exe, ""
     march = ["-march=haswell"] if arch == "avx2" else ["-march=westmere"]
-    cmd = ["g++", "-std=c++17", "-O1", "-g", "-I" + os.path.join(REPO, "include"),
+    cmd = ["g++", "-std=c++17", "-O1", "-g", "-fno-access-control", "-I" + os.path.join(REPO, "include"),
            "-I" + os.path.join(VERIF, "specs", "include"), "-I" + os.path.join(VERIF, "models")] + march + \
           (["-fsanitize=address,undefined", "-fno-sanitize-recover=undefined"] if sanitize else []) + \
           [os.path.join(HERE, "replay.cpp"), "-o", exe]
@@ -74,7 +75,8 @@ def run_replay(path, work):
         with open(flat, "w") as f:
             f.write(flat_inputs(inputs))
         try:
-            p = subprocess.run([exe, driver, flat], stdout=subprocess.PIPE, stderr=subprocess.STDOUT, timeout=120)
+            p = subprocess.run([exe, driver, flat], stdout=subprocess.PIPE, stderr=subprocess.STDOUT, timeout=120,
+                               env=dict(os.environ, ASAN_OPTIONS="detect_leaks=0"))
             o = p.stdout.decode(errors="replace")
             rc = p.returncode
         except subprocess.TimeoutExpired:
@@ -86,11 +88,11 @@ def run_replay(path, work):
 
 
 def handle_violation(prop, jr, work, known):
-    os.makedirs(os.path.join(VERIF, "replays"), exist_ok=True)
+    os.makedirs(REPLAYS, exist_ok=True)
     r0 = jr.failed[0]
     job = jr.job
     name = "%s-%s-%s.json" % (prop, re.sub(r"[^\w.-]", "_", job["id"]), re.sub(r"[^\w.-]", "_", r0["property"] or "obl"))
-    path = os.path.join(VERIF, "replays", name)
+    path = os.path.join(REPLAYS, name)
     rp = {
         "property": prop, "job": job["id"], "function": job.get("function"), "arch": job.get("arch", "avx2"),
         "failed_obligation": {"name": r0["property"], "text": r0["description"],
@@ -119,8 +121,8 @@ def handle_violation(prop, jr, work, known):
 
 
 def write_native_violation(prop, rep):
-    os.makedirs(os.path.join(VERIF, "replays"), exist_ok=True)
-    path = os.path.join(VERIF, "replays", "%s-native-%s.json" % (prop, rep["id"]))
+    os.makedirs(REPLAYS, exist_ok=True)
+    path = os.path.join(REPLAYS, "%s-native-%s.json" % (prop, rep["id"]))
     with open(path, "w") as f:
         json.dump({"property": prop, "native_step": rep["id"], "failed_obligation": rep.get("obligation"),
                    "inputs": rep.get("inputs"), "log": rep.get("msg", "")[-6000:]}, f, indent=1)
